@@ -3,6 +3,7 @@ import Tickit.Proof.EvLoopMulti
 import Tickit.Gen.EvLoop
 import Tickit.Model.EvLoopFb
 import Tickit.Proof.EvLoopFbEnd
+import Tickit.Proof.EvLoopTerm
 /-
   C18 — A delivered signal or ready descriptor always reaches its watchers.   (claimed: partial)
 
@@ -563,5 +564,28 @@ example : (10 : Int) ∈ signalRange ∧ (10 : Int) ∈ (Fb.runOps .repaired [.a
 example : cbLog (Fb.runOps .repaired [.beh ⟨1, 0, [.raise 12, .cancel 4]⟩, .act (.signal 0 10 0), .act (.timer 1 0 0),
     .act (.io 2 100 1 0), .act (.signal 3 12 0), .act (.signal 4 10 0), .ready 100 1, .act (.raise 10), .tick]) =
     [.cb 1 3 .none, .cb 0 1 .none, .cb 3 1 .none, .cb 2 1 (.io 100 1)] := by decide +kernel
+
+/-! ### stand-alone terminals observing SIGWINCH next to the loop (Model/EvLoopTerm.lean) -/
+
+/-- `tickit_term_observe_sigwinch` leaves the signal mask as it found it, whatever the observer list, the terminal
+    and the direction: a signal the loop keeps blocked outside its wait stays blocked. -/
+theorem term_observe_keeps_watched_signals_blocked (obs : List Nat) (st : St) (tt : Nat) (observe : Bool) :
+    (termObserve obs st tt observe).2.blocked = st.blocked := termObserve_restores_mask obs st tt observe
+
+/-- While the loop watches SIGWINCH (keeps it blocked) and the observer list stays non-empty, a terminal joining or
+    leaving the observers changes nothing: the next iteration is the iteration it would have been, so a SIGWINCH
+    raised afterwards stays pending (raise_while_blocked_stays_pending) and reaches its watchers
+    (signal_reaches_watchers_end_to_end) exactly as without the call. -/
+theorem term_observe_then_iteration_unchanged (fuel : Nat) (obs : List Nat) (st : St) (tt : Nat) (observe nohang : Bool) (s : Int)
+    (hb : st.blocked.contains SIGWINCH = true) (hp : ∀ s ∈ st.kpending, st.blocked.contains s = true)
+    (h1 : obs.isEmpty = false) (h2 : (obs.erase tt).isEmpty = false) :
+    tick fuel (raiseSig (termObserve obs st tt observe).2 s) nohang = tick fuel (raiseSig st s) nohang := by
+  rw [termObserve_transparent obs st tt observe hb hp h1 h2]
+
+/-- Non-vacuity: the instance as built blocks SIGWINCH; a second terminal joins the first one's list. -/
+theorem term_observe_example :
+    (termObserve [0] (build .repaired) 1 true).1 = [0, 1] ∧
+    (termObserve [0] (build .repaired) 1 true).2.blocked = [28] ∧
+    (raiseSig (termObserve [0] (build .repaired) 1 true).2 28).kpending = [28] := by decide +kernel
 
 end Tickit.Props.C18
